@@ -198,6 +198,9 @@ func compareRun(real drive.Outcome, model ref.Outcome, o cmpOpts) *runCmp {
 		// the documents do not fix the outcome (or the order of map keys)
 		return nil
 	}
+	if real.Budget && real.State.TooBig {
+		return &runCmp{"runaway-value", fmt.Sprintf("the real run showed a probe a string above 1 MiB after %d steps; the reference run never builds one", real.State.Steps)}
+	}
 	if real.Budget {
 		return &runCmp{"runaway", fmt.Sprintf("the reference run ended after %d steps; the real run was still going after %d", model.Shared.Steps, real.State.Steps)}
 	}
